@@ -28,6 +28,9 @@ Definition clean_run_b (report_cmd : bool) (c : run_class) (stdout_empty stderr_
   | _ => false
   end.
 
+(* what a command writes to standard output: the result type carries output only on success *)
+Definition stdout_of (r : cresult str) : str := match r with COk out => out | _ => [] end.
+
 (* ---------------------------------------------------------------- guards *)
 
 (* -m level[:suffix],regex with non-negative numbers *)
